@@ -2,6 +2,7 @@
 # usage: tools/validate_seed.sh <seed dir containing patch.diff demo.py meta.json> <Cxx> [tier]
 # Confirms (in scratch copies, never in /repo): patch applies, full suite passes with it, demo fails with it
 # and passes without it; then runs ./check Cxx against the patched copy and reports whether it was caught.
+VROOT=$(dirname $(dirname $(realpath $0)))
 SD=$(realpath $1); P=$2; TIER=${3:-quick}
 ID=$(echo "$SD" | tr '/' '_')
 W=/tmp/val$ID
@@ -17,7 +18,6 @@ rm -f $W/repo/_demo.py
 if [ "$SKIP_TESTS" != "1" ]; then
   ( cd $W/repo && timeout 1200 /venv/bin/python -m pytest -q -p no:cacheprovider --timeout=900 2>&1 | tail -1 ) > $W/tests.txt
 else echo "skipped" > $W/tests.txt; fi
-VROOT=$(dirname $(dirname $(realpath $0)))
 cp -r $VROOT $W/verif
 ( cd $W/verif && PERMUTA_REPO=$W/repo timeout 1800 ./check $P --tier $TIER > $W/check.txt 2>&1 ); RC=$?
 echo "RESULT $SD prop=$P demo_with_patch_rc=$DW demo_without_rc=$DO tests='$(cat $W/tests.txt)' check_rc=$RC"
